@@ -165,15 +165,10 @@ def get_txt_pos_ml(toks, main_lang, parms):
         if type(t) is not defs.LanguageToken:
             cur_sec.append(t)
             continue
-        if t.lang == lang_stack[-1]:
-            continue
-        txt, pos = get_txt_pos(cur_sec)
-        cur_sec = []
-        if txt:
-            sections.append(LanguageSection(
-                        lang_stack[-1], switch_back, switch_brk, txt, pos))
-        switch_back = t.back
-        switch_brk = t.brk
+        #   determine language stack behind this token
+        #   - NB: a push of the current language has to be registered, too;
+        #     otherwise, the corresponding pop would remove a wrong entry
+        lang_cur = lang_stack[-1]
         if t.back:
             if len(lang_stack) > 1:
                 lang_stack.pop()
@@ -182,6 +177,15 @@ def get_txt_pos_ml(toks, main_lang, parms):
                 lang_stack[-1] = t.lang
             else:
                 lang_stack.append(t.lang)
+        if lang_stack[-1] == lang_cur:
+            continue
+        txt, pos = get_txt_pos(cur_sec)
+        cur_sec = []
+        if txt:
+            sections.append(LanguageSection(
+                        lang_cur, switch_back, switch_brk, txt, pos))
+        switch_back = t.back
+        switch_brk = t.brk
     txt, pos = get_txt_pos(cur_sec)
     if txt:
         sections.append(LanguageSection(
